@@ -262,7 +262,13 @@ func (w *World) do(op Op) string {
 	case "coll":
 		// method values of one method on different receivers: distinct comparators that share a code pointer
 		w.collCalls++
-		if op.N == 0 && w.collCalls%2 == 0 {
+		replacesCustom := false
+		if h.Ref != nil {
+			if rc, ok := h.Ref.Colls[op.Name]; ok && rc.Cmp != 0 {
+				replacesCustom = true // an existing name ordered by a custom comparator goes back to the default
+			}
+		}
+		if op.N == 0 && (w.collCalls%2 == 0 || replacesCustom) {
 			s.SetCollection(op.Name, nil) // nil is documented to mean bytes.Compare, on new and on existing names
 			return "ok"
 		}
@@ -989,6 +995,9 @@ func dumpStore(s *gkvlite.Store) string {
 		cnt, b, err := c.GetTotals()
 		if err != nil {
 			return "err:totals"
+		}
+		if bytesUnspecified {
+			b = 0
 		}
 		fmt.Fprintf(&sb, "[%s n=%d b=%d", hx([]byte(n)), cnt, b)
 		mi, err := c.MinItem(false)
